@@ -51,5 +51,8 @@ class MorrisDOE_Settings(BaseDOESettings):  # noqa: N801
 
     step: PositiveFloat = Field(
         default=0.05,
-        description="""The relative step of the OAT DOE.""",
+        le=0.5,
+        description="""The relative step of the OAT DOE.
+
+It must be at most 0.5 so that every sample stays in the variables space.""",
     )
